@@ -27,7 +27,7 @@ func init() {
 		},
 		Covers: []string{"c12/create", "c12/append", "c12/close", "c12/open", "c12/readat", "c12/delete", "c12/link",
 			"c12/atomiccreate", "c12/list", "c12/history"},
-		Bounds: "six scripted longer histories with symbolic data and read windows (re-creation under an open descriptor, two links and removal of the original, descriptor churn past number 4, a 9-byte file in two appends, a 4099-byte file read across offset 4096, six entries in one directory); directory listings with the kernel returning entries in arbitrary chunks (2–4 entries); histories from the empty file system: k=2 over names that look like staging/hidden/extension files ({a,a.tmp}, {.tmp,b.txt}, {.a,a~}); k=3 over one directory and names {a,b} with data ≤ 1 byte, k=2 over two directories with data ≤ 2 bytes (quick); k=4 and k=5 over one directory, k=3 over two directories (thorough); ReadAt offset fully symbolic < 2^63, length symbolic ≤ 4; final observation of all listings, contents and still-open read descriptors",
+		Bounds: "six scripted longer histories with symbolic data and read windows (re-creation under an open descriptor, two links and removal of the original, descriptor churn past number 4, a 9-byte file in two appends, a file of 4099 then 8299 bytes read across offset 4096 and in single reads of 8297 and 4200 bytes, six entries in one directory); directory listings with the kernel returning entries in arbitrary chunks (2–4 entries); histories from the empty file system: k=2 over names that look like staging/hidden/extension files ({a,a.tmp}, {.tmp,b.txt}, {.a,a~}); k=3 over one directory and names {a,b} with data ≤ 1 byte, k=2 over two directories with data ≤ 2 bytes (quick); k=4 and k=5 over one directory, k=3 over two directories (thorough); ReadAt offset fully symbolic < 2^63, length symbolic ≤ 4; final observation of all listings, contents and still-open read descriptors",
 		Assumptions: []string{
 			"valid histories: preconditions of the documented API are assumed from the reference model's state",
 			"DirFs runs on the kernel model (openat/O_EXCL, pread, write, unlinkat, linkat, renameat, getdents)",
